@@ -59,6 +59,9 @@ def copOf : Sexp → Option COp
   | .atom "ptype" => some .ptype
   | .atom "dtype" => some .dtype
   | .atom "str" => some .str
+  | .atom "hkey" => some .pure
+  | .atom "eq" => some .pure
+  | .atom "inst" => some .pure
   | _ => none
 
 open Pcore.LazyCache in
